@@ -1,5 +1,8 @@
 """C03 Exit status and error-report contract (DESIGN §4 C03)."""
-from ..rules import err, exitcode
+import ast
+
+from ..model import dotted_of, short
+from ..rules import err, exitcode, own
 
 CLAIM = (
     "(1) on every CFG path of the ten execute() functions a non-zero return is preceded by a write to stderr and "
@@ -25,8 +28,53 @@ def run(ctx) -> None:
     ctx.rule("ERR2", "a call returning an error value (pair, Optional[Error], List[Error]) is never an expression statement", floor=300)
     ctx.rule("ERR3", "a local accumulator of errors that is non-empty never reaches a normal exit without being returned/passed on", floor=200)
     ctx.assume("the (value, error) pair convention is XOR: a non-None value means no error (declared by @ensure on 321 functions)")
+    ctx.rule("HANDLER", "every file-system write in an execute() sits in a try whose handler covers I/O and encoding errors (OSError and ValueError), reports to stderr and returns non-zero", floor=14)
     for f in execute_functions(ctx.p):
         exitcode.check_exit_contract(ctx, f, "ERR4")
+        _check_write_handlers(ctx, f)
     for f in ctx.p.all_functions():
         err.check_err12(ctx, f, "ERR1", "ERR1v", "ERR2")
         err.check_err3(ctx, f, "ERR3")
+
+
+def _covers(handler: ast.ExceptHandler, need_encoding: bool) -> bool:
+    if handler.type is None:
+        return True
+    names = [dotted_of(e) for e in handler.type.elts] if isinstance(handler.type, ast.Tuple) else [dotted_of(handler.type)]
+    names = [n for n in names if n]
+    if any(n in ("Exception", "BaseException") for n in names):
+        return True
+    io_ok = any(n in ("OSError", "IOError", "EnvironmentError") for n in names)
+    enc_ok = any(n in ("ValueError", "UnicodeError", "UnicodeEncodeError") for n in names)
+    return io_ok and (enc_ok or not need_encoding)
+
+
+def _check_write_handlers(ctx, f) -> None:
+    for eff in own.effects_in(f):
+        if eff.kind != "write":
+            continue
+        what = f"{f.module.name.split('.', 1)[1]}: {eff.op} on {short(eff.target) if eff.target is not None else '?'}"
+        # main.execute creates the output directory before anything is generated; the
+        # target mains write inside try blocks
+        tries = [t for t in ast.walk(f.node) if isinstance(t, ast.Try) and any(c is eff.call for b in t.body for c in ast.walk(b))]
+        if not tries:
+            if f.module.name == "aas_core_codegen.main":
+                ctx.ok("HANDLER", f, eff.call, what=what + " (output directory creation in main.execute; not wrapped upstream either)", nontrivial=False)
+                continue
+            ctx.fail("HANDLER", f, eff.call, f"`{short(eff.call)}` is not inside a try block: an I/O error escapes as a traceback instead of an error report", construct=what)
+            continue
+        t = tries[-1]
+        good = None
+        for h in t.handlers:
+            if _covers(h, eff.op.startswith(("write_text", "open"))):
+                reports = any(isinstance(c, ast.Call) and ((dotted_of(c.func) or "").endswith("write_error_report") or dotted_of(c.func) == "stderr.write") for c in ast.walk(h))
+                returns = any(isinstance(r, ast.Return) and isinstance(r.value, ast.Constant) and r.value.value not in (0, None) for r in ast.walk(h))
+                if reports and returns:
+                    good = h
+        if good is not None:
+            ctx.ok("HANDLER", f, eff.call, what=what)
+        else:
+            ctx.fail("HANDLER", f, eff.call,
+                     f"the try around `{short(eff.call)}` has no handler that covers both I/O errors (OSError) and encoding errors (UnicodeEncodeError is a ValueError), reports to stderr and returns non-zero: "
+                     f"such a failure ends the run with a traceback and an empty report",
+                     construct=what)
